@@ -104,6 +104,9 @@ func hasCustomFunc(customFunc *config.Func, t object.ObjectType, funcName string
 	}
 }
 
+// maxStrLen is the longest string a built-in function builds from a count
+const maxStrLen = 1<<31 - 1
+
 func addDecimals(receiver object.Object, objType object.ObjectType, args ...object.Object) (object.Object, error) {
 	var val string
 
@@ -150,6 +153,11 @@ func addDecimals(receiver object.Object, objType object.ObjectType, args ...obje
 	// zero or a negative number of decimals leaves the value as it is
 	if decimals <= 0 {
 		return &object.Str{Value: val}, nil
+	}
+
+	if decimals > maxStrLen {
+		msg := fmt.Sprintf(fail.ErrFuncResultTooLong, "decimal", objType, maxStrLen)
+		return nil, errors.New(msg)
 	}
 
 	zeros := strings.Repeat("0", decimals)
